@@ -30,6 +30,9 @@ enum Ep {
     RotateEarlyNoBypass,
     CollectFees,
     Refund,
+    /// refunds of amount 0 and -1: whatever the collector's own call does, nobody else's may succeed
+    RefundZero,
+    RefundNegative,
     AddOperator,
     RemoveOperator,
     SetTrusted,
@@ -97,7 +100,7 @@ impl C06 {
         let mut v = vec![Ep::TransferOwnership(2), Ep::TransferOwnership(0), Ep::TransferOwnership(4), Ep::TransferOwnership(5), Ep::Upgrade, Ep::Migrate];
         match kind {
             0 => v.extend([Ep::TransferOperatorship(2), Ep::TransferOperatorship(1), Ep::TransferOperatorship(4), Ep::TransferOperatorship(5), Ep::RotateBypass, Ep::RotateBypassOld, Ep::RotateEarlyNoBypass]),
-            1 => v.extend([Ep::CollectFees, Ep::Refund]),
+            1 => v.extend([Ep::CollectFees, Ep::Refund, Ep::RefundZero, Ep::RefundNegative]),
             2 => v.extend([Ep::AddOperator, Ep::RemoveOperator]),
             3 => v.extend([Ep::SetTrusted, Ep::RemoveTrusted]),
             _ => v.extend([Ep::SetAdmin(2), Ep::SetAdmin(0), Ep::SetAdmin(4), Ep::AddMinter, Ep::RemoveMinter, Ep::Mint]),
@@ -155,6 +158,8 @@ impl C06 {
             }
             Ep::CollectFees => ("collect_fees", vec![p[3].to_val(), to_val(env, &token_scval(&w.sc_addr(&ctx.asset), 1))]),
             Ep::Refund => ("refund", vec![to_val(env, &sstr("m")), p[3].to_val(), to_val(env, &token_scval(&w.sc_addr(&ctx.asset), 1))]),
+            Ep::RefundZero => ("refund", vec![to_val(env, &sstr("m")), p[3].to_val(), to_val(env, &token_scval(&w.sc_addr(&ctx.asset), 0))]),
+            Ep::RefundNegative => ("refund", vec![to_val(env, &sstr("m")), p[3].to_val(), to_val(env, &token_scval(&w.sc_addr(&ctx.asset), -1))]),
             Ep::AddOperator => ("add_operator", vec![p[2].to_val()]),
             Ep::RemoveOperator => ("remove_operator", vec![p[2].to_val()]),
             Ep::SetTrusted => ("set_trusted_chain", vec![to_val(env, &sstr("ethereum"))]),
@@ -174,7 +179,7 @@ impl C06 {
             Ep::TransferOperatorship(_) => (m.operator, true),
             Ep::RotateBypass | Ep::RotateBypassOld => (m.operator, true),
             Ep::RotateEarlyNoBypass => (m.operator, false),
-            Ep::CollectFees | Ep::Refund => (1, true),
+            Ep::CollectFees | Ep::Refund | Ep::RefundZero | Ep::RefundNegative => (1, true),
             Ep::AddOperator | Ep::SetTrusted => (m.owner, !m.flag),
             Ep::RemoveOperator | Ep::RemoveTrusted => (m.owner, m.flag),
             Ep::AddMinter | Ep::RemoveMinter => (m.owner, true),
@@ -271,7 +276,9 @@ impl Scenario for C06 {
         let authorised = a.by == By::P(holder);
         // a rotation without bypass needs nobody's authorisation, only the elapsed delay
         let want = if a.ep == Ep::RotateEarlyNoBypass { m.elapsed } else { authorised && pre };
-        out.expect(call.ok == want, "admin.outcome", || {
+        // the statement does not say what the collector's own refund of nothing does
+        let unspecified = authorised && matches!(a.ep, Ep::RefundZero | Ep::RefundNegative);
+        out.expect(unspecified || call.ok == want, "admin.outcome", || {
             format!(
                 "{}: {:?} by {:?} (role holder {}, owner {}, operator {}, precondition {}): ok={} ({}), model {}",
                 NAMES[ctx.kind], a.ep, a.by, holder, m.owner, m.operator, pre, call.ok, call.err, want
@@ -306,6 +313,7 @@ impl Scenario for C06 {
             Ep::Migrate => m.window = false,
             Ep::RotateBypass | Ep::RotateBypassOld | Ep::RotateEarlyNoBypass => { m.budget -= 1; m.epoch += 1; m.elapsed = false; }
             Ep::CollectFees | Ep::Refund | Ep::Mint => m.budget -= 1,
+            Ep::RefundZero | Ep::RefundNegative => {}
             Ep::AddOperator | Ep::SetTrusted => m.flag = true,
             Ep::RemoveOperator | Ep::RemoveTrusted => m.flag = false,
             Ep::AddMinter => m.flag = true,
@@ -369,7 +377,7 @@ fn main() {
         let mut o = Opts::new(tier, if tier == "thorough" { 14 } else { 9 });
         o.min_depth = 4;
         o.xcheck = tier == "thorough";
-        o.rule = "per contract (gateway, gas service, operators, ITS, interchain token): every administrative entry point (ownership / operatorship transfer to a successor, to self and back, to the all-zero account and to the contract itself (after which every administrative call is refused for every authoriser); upgrade; migrate; operator-bypass rotation with a proof from the latest and from an older retained set; a non-bypass rotation (refused for every authoriser until the minimum delay has passed since the last rotation of either kind, accepted for every authoriser afterwards); collect_fees; refund; add/remove operator; set/remove trusted chain; add/remove minter; owner mint; set_admin) x every candidate authoriser {initial owner, initial operator/collector, successor/beneficiary, stranger, nobody, the current holder signing altered arguments, the current holder authorising the same call on a twin contract}; all histories to fixpoint (payouts / mints / rotations bounded to 3); role queries and the affected configuration compared after every new state".into();
+        o.rule = "per contract (gateway, gas service, operators, ITS, interchain token): every administrative entry point (ownership / operatorship transfer to a successor, to self and back, to the all-zero account and to the contract itself (after which every administrative call is refused for every authoriser); upgrade; migrate; operator-bypass rotation with a proof from the latest and from an older retained set; a non-bypass rotation (refused for every authoriser until the minimum delay has passed since the last rotation of either kind, accepted for every authoriser afterwards); collect_fees; refund (also of amount 0 and -1, which nobody but the collector may get accepted); add/remove operator; set/remove trusted chain; add/remove minter; owner mint; set_admin) x every candidate authoriser {initial owner, initial operator/collector, successor/beneficiary, stranger, nobody, the current holder signing altered arguments, the current holder authorising the same call on a twin contract}; all histories to fixpoint (payouts / mints / rotations bounded to 3); role queries and the affected configuration compared after every new state".into();
         (C06, o)
     });
 }
